@@ -19,6 +19,7 @@ META = {
     "stubs": ["int() shadowed in scoda modules (identity on SymInt, truncation on SymFloat)", "np.digitize ite-sum", "logging disabled"],
 }
 
+S0 = ["W", ("ON", 0), "W", ("OFF", 0)]
 S1 = [("ON", 0), "W", ("OFF", 0), "W", ("ON", 1), "W", ("OFF", 1)]
 S2 = ["W", ("ON", 0), "W", ("ON", 1), "W", ("OFF", 0), "W", ("OFF", 1), "W"]
 TOKEN_RE = re.compile(r"^(rst|val)_(.*)$")
@@ -58,6 +59,27 @@ def op_qnl(ctx, s, t):
 
 def op_qnl_noext(ctx, s, t):
     s.quantise_note_lengths([6, 12], do_not_extend=True)
+    return [s]
+
+
+def op_quantise_generated_grid(ctx, s, t):
+    # grids built with the documented generator functions (non-default bounds)
+    from scoda.misc.util import get_note_durations, get_tuplet_durations
+    grid = get_note_durations(2, 2)
+    s.quantise(grid + get_tuplet_durations(grid, 3, 2))
+    return [s]
+
+
+def op_quantise_shifted_default_grid(ctx, s, t):
+    from scoda.misc.util import get_default_step_sizes
+    s.quantise(get_default_step_sizes(upper_bound_shift=1, lower_bound_shift=-1))
+    return [s]
+
+
+def op_qnl_generated_values(ctx, s, t):
+    from scoda.misc.util import get_note_durations, get_dotted_note_durations
+    vals = get_note_durations(2, 2)
+    s.quantise_note_lengths(vals + get_dotted_note_durations(vals, 1))
     return [s]
 
 
@@ -122,7 +144,8 @@ def op_copy(ctx, s, t):
     return [s.copy()]
 
 
-OPS = {"quantise": op_quantise, "quantise_note_lengths": op_qnl, "quantise_note_lengths_noext": op_qnl_noext,
+OPS = {"quantise_generated_grid": op_quantise_generated_grid, "quantise_shifted_default_grid": op_quantise_shifted_default_grid,
+       "quantise_note_lengths_generated_values": op_qnl_generated_values, "quantise": op_quantise, "quantise_note_lengths": op_qnl, "quantise_note_lengths_noext": op_qnl_noext,
        "normalise": op_normalise, "pad": op_pad, "split": op_split, "bar44": op_bar, "bar68": op_bar68,
        "transpose": op_transpose, "cutoff": op_cutoff, "scale2": op_scale2, "scale3": op_scale3,
        "refresh": op_refresh, "set_channel": op_set_channel, "copy": op_copy}
@@ -224,7 +247,10 @@ def queries(tier, seed):
     qs = []
     wmax = 8 if tier == "quick" else 12
     for name in OPS:
-        qs.append(q_single(name, ("s1", S1), wmax))
+        if "generated" in name or "shifted" in name:
+            qs.append(q_single(name, ("s0", S0), 40))
+        else:
+            qs.append(q_single(name, ("s1", S1), wmax))
         if name in ("quantise", "split", "bar44", "cutoff", "pad"):
             qs.append(q_single(name, ("s2", S2), 4 if tier == "quick" else 6))
     for name in ("merge", "concatenate", "split_bars", "split_bars_noq", "composition"):
